@@ -22,6 +22,7 @@
 (*          participant x for block (p, e); g = TRUE iff x really signed    *)
 (*   sigC   <<x, p, g>>: x appears as signer (committer or carried          *)
 (*          endorser) in a verified commit message for proposer p           *)
+(*   sigD   <<x, p, e>>: x itself sent a verified message for block (p, e)    *)
 (* g = FALSE arises only for endorser entries inside a commit message:      *)
 (* blockCommitMsg.Verify checks the committer's signature only.             *)
 (*                                                                         *)
@@ -40,13 +41,13 @@ CONSTANTS N, C,          \* chain config
           Alpha,         \* message alphabet (set of Act records)
           EmitOn
 
-VARIABLES props, es, cm, sigE, sigC, hist
+VARIABLES props, es, cm, sigE, sigC, sigD, hist
 
 Peer == 1..N
 F    == (N - 1) \div 3
 NoAns == [p |-> 0, e |-> FALSE, d |-> FALSE]
 
-vars == <<props, es, cm, sigE, sigC, hist>>
+vars == <<props, es, cm, sigE, sigC, sigD, hist>>
 
 (* ---------------- addBlockEndorsementLocked ---------------- *)
 HasEmpty(l)   == \E i \in 1..Len(l) : l[i].e
@@ -147,85 +148,85 @@ OkCom(a, SE, SC, cl) ==
     ~a.d \/ Cardinality(GC(SC, a.p, cl)) >= N - F - 1
          \/ Cardinality(G(SE, a.p, FALSE, cl)) > N - 1 - C
 \* the sealed block carries exactly one signature per distinct supporting participant
-\* sl = set of [x, g] entries (x = bookkeeper, g = the entry is a valid signature of x over the sealed block)
-OkSealSet(sl, p, e, SE, cl) ==
+\* sl = set of [x, g] entries (x = bookkeeper, g = the entry is a valid signature of x over the sealed block);
+\* a participant that itself sent a message for (p, e) and never took another stance must be among the signers
+OkSealSet(sl, p, e, SE, SD, cl) ==
     /\ \A r \in sl : (r.g \/ (cl /\ r.x # p)) /\ (r.x = p \/ r.x \in G(SE, p, e, cl))
     /\ \E r \in sl : r.x = p
-    /\ \A x \in G(SE, p, e, cl) : Stances(SE, x, cl) = {<<p, e>>} => \E r \in sl : r.x = x
+    /\ \A x \in Peer : <<x, p, e>> \in SD /\ Stances(SE, x, cl) = {<<p, e>>} => \E r \in sl : r.x = x
     /\ \A r1, r2 \in sl : r1.x = r2.x => r1 = r2
+
+(* ---------------- effect of one delivered message ---------------- *)
+Act(k, x, p, e, sg, sf) == [k |-> k, x |-> x, p |-> p, e |-> e, sg |-> sg, sf |-> sf]
+Res(ret, P, E, M) == [ret |-> ret, P |-> P, E |-> E, M |-> M]
+
+Eff(a, P, E, M) ==
+    CASE a.k = "P" ->    \* newBlockProposal: the proposer's block signature is recorded as its endorsement
+           IF a.p \in P THEN Res("ok", P, E, M)          \* same message again: ignored
+           ELSE Res("ok", P \cup {a.p}, AddE(E, a.p, [p |-> a.p, e |-> FALSE, g |-> TRUE], FALSE), M)
+      [] a.k = "P2" ->   \* a different proposal of a proposer already pooled: errDupProposal
+           Res("dup", P, E, M)
+      [] a.k = "E" ->    \* newBlockEndorsement
+           Res("ok", P, AddE(E, a.x, [p |-> a.p, e |-> a.e, g |-> TRUE], FALSE), M)
+      [] a.k = "C" ->    \* newBlockCommitment
+           LET I == {i \in 1..Len(M) : M[i].c = a.x} IN
+           IF I # {}
+           THEN LET m == M[CHOOSE i \in I : TRUE]
+                IN Res(IF m.p = a.p /\ m.e = a.e THEN "ok" ELSE "dup", P, E, M)
+           ELSE Res("ok", P,
+                    AddE(AddAll(E, a.sg \cup a.sf, a.p, a.e, a.sg), a.x, [p |-> a.p, e |-> a.e, g |-> TRUE], TRUE),
+                    Append(M, [c |-> a.x, p |-> a.p, e |-> a.e, S |-> a.sg \cup a.sf]))
+      [] OTHER ->        \* BE / BC: the message's own signature does not verify, it never reaches the pool
+           Res("rej", P, E, M)
+
+\* what the message proves about the participants, whatever the pool does with it
+NewE(a) == CASE a.k = "P" -> {<<a.p, a.p, FALSE, TRUE>>}
+             [] a.k = "E" -> {<<a.x, a.p, a.e, TRUE>>}
+             [] a.k = "C" -> {<<a.x, a.p, a.e, TRUE>>} \cup {<<x, a.p, a.e, TRUE>> : x \in a.sg}
+                             \cup {<<x, a.p, a.e, FALSE>> : x \in a.sf}
+             [] OTHER -> {}
+NewC(a) == IF a.k = "C" THEN {<<a.x, a.p, TRUE>>} \cup {<<x, a.p, TRUE>> : x \in a.sg} \cup {<<x, a.p, FALSE>> : x \in a.sf}
+           ELSE {}
+NewD(a) == CASE a.k = "P" -> {<<a.p, a.p, FALSE>>}
+             [] a.k \in {"E", "C"} -> {<<a.x, a.p, a.e>>}
+             [] OTHER -> {}
 
 EdRows(E, SE) == {[p |-> a.p, e |-> a.e, d |-> a.d, ok |-> OkEnd(a, SE, FALSE), okc |-> OkEnd(a, SE, TRUE)]
                    : a \in EndorseDone(E)}
-CdRows(P, E, M, SE, SC) ==
+CdRows(P, E, M, SE, SC, SD) ==
     {LET hs == a.d /\ a.p \in P
          sl == IF hs THEN Seal(E, a.p, a.e) ELSE {}
      IN [p |-> a.p, e |-> a.e, d |-> a.d, ok |-> OkCom(a, SE, SC, FALSE), okc |-> OkCom(a, SE, SC, TRUE),
          hs |-> hs, seal |-> sl,
-         sok  |-> (~hs \/ OkSealSet(sl, a.p, a.e, SE, FALSE)),
-         sokc |-> (~hs \/ OkSealSet(sl, a.p, a.e, SE, TRUE))]
+         sok  |-> (~hs \/ OkSealSet(sl, a.p, a.e, SE, SD, FALSE)),
+         sokc |-> (~hs \/ OkSealSet(sl, a.p, a.e, SE, SD, TRUE))]
      : a \in CommitDone(E, M)}
 
 PropC41 == /\ \A r \in EdRows(es, sigE) : r.ok
-           /\ \A r \in CdRows(props, es, cm, sigE, sigC) : r.ok /\ r.sok
+           /\ \A r \in CdRows(props, es, cm, sigE, sigC, sigD) : r.ok /\ r.sok
 
-(* ---------------- actions ---------------- *)
-Emit(act, ret, P2, E2, M2, SE2, SC2) ==
-    ~EmitOn \/ PrintT(<<"EDGE", ToJson([h |-> hist, a |-> act, ret |-> ret,
-                                        ed |-> EdRows(E2, SE2), cd |-> CdRows(P2, E2, M2, SE2, SC2)])>>)
+(* ---------------- behaviours ---------------- *)
+Init == props = {} /\ es = [x \in Peer |-> <<>>] /\ cm = <<>> /\ sigE = {} /\ sigC = {} /\ sigD = {} /\ hist = <<>>
 
-Act(k, x, p, e, sg, sf) == [k |-> k, x |-> x, p |-> p, e |-> e, sg |-> sg, sf |-> sf]
+Enabled(a) == a.k = "P2" => a.p \in props
 
-Step(act, ret, P2, E2, M2, SE2, SC2) ==
-    /\ props' = P2 /\ es' = E2 /\ cm' = M2 /\ sigE' = SE2 /\ sigC' = SC2
-    /\ hist' = Append(hist, act)
-    /\ Emit(act, ret, P2, E2, M2, SE2, SC2)
-
-\* newBlockProposal: first proposal of p (the proposer's block signature is recorded as its endorsement)
-Proposal(p) ==
-    LET act == Act("P", p, p, FALSE, {}, {}) IN
-    IF p \in props THEN Step(act, "ok", props, es, cm, sigE, sigC)       \* same message again: ignored
-    ELSE Step(act, "ok", props \cup {p}, AddE(es, p, [p |-> p, e |-> FALSE, g |-> TRUE], FALSE), cm,
-              sigE \cup {<<p, p, FALSE, TRUE>>}, sigC)
-\* a second, different proposal of a proposer already pooled: errDupProposal, nothing changes
-Proposal2(p) ==
-    /\ p \in props
-    /\ Step(Act("P2", p, p, FALSE, {}, {}), "dup", props, es, cm, sigE, sigC)
-
-Endorse(x, p, e) ==
-    Step(Act("E", x, p, e, {}, {}), "ok", props, AddE(es, x, [p |-> p, e |-> e, g |-> TRUE], FALSE), cm,
-         sigE \cup {<<x, p, e, TRUE>>}, sigC)
-
-Commit(c, p, e, Sg, Sf) ==
-    LET act == Act("C", c, p, e, Sg, Sf)
-        SE2 == sigE \cup {<<c, p, e, TRUE>>} \cup {<<x, p, e, TRUE>> : x \in Sg} \cup {<<x, p, e, FALSE>> : x \in Sf}
-        SC2 == sigC \cup {<<c, p, TRUE>>} \cup {<<x, p, TRUE>> : x \in Sg} \cup {<<x, p, FALSE>> : x \in Sf}
-        I   == {i \in 1..Len(cm) : cm[i].c = c}
-    IN IF I # {}
-       THEN LET m == cm[CHOOSE i \in I : TRUE]
-            IN Step(act, IF m.p = p /\ m.e = e THEN "ok" ELSE "dup", props, es, cm, SE2, SC2)
-       ELSE Step(act, "ok", props,
-                 AddE(AddAll(es, Sg \cup Sf, p, e, Sg), c, [p |-> p, e |-> e, g |-> TRUE], TRUE),
-                 Append(cm, [c |-> c, p |-> p, e |-> e, S |-> Sg \cup Sf]), SE2, SC2)
-
-\* messages whose own signature does not verify are dropped before they reach the pool
-BadEndorse(x, p) == Step(Act("BE", x, p, FALSE, {}, {}), "rej", props, es, cm, sigE, sigC)
-BadCommit(c, p)  == Step(Act("BC", c, p, FALSE, {}, {}), "rej", props, es, cm, sigE, sigC)
-
-Init == props = {} /\ es = [x \in Peer |-> <<>>] /\ cm = <<>> /\ sigE = {} /\ sigC = {} /\ hist = <<>>
+Do(a) ==
+    LET r   == Eff(a, props, es, cm)
+        SE2 == sigE \cup NewE(a)
+        SC2 == sigC \cup NewC(a)
+        SD2 == sigD \cup NewD(a)
+    IN /\ Enabled(a)
+       /\ props' = r.P /\ es' = r.E /\ cm' = r.M /\ sigE' = SE2 /\ sigC' = SC2 /\ sigD' = SD2
+       /\ hist' = Append(hist, a)
+       /\ (~EmitOn \/ PrintT(<<"EDGE", ToJson([h |-> hist, a |-> a, ret |-> r.ret, ed |-> EdRows(r.E, SE2),
+                                                cd |-> CdRows(r.P, r.E, r.M, SE2, SC2, SD2)])>>))
 
 \* Alpha: the message alphabet of a run (set of Act records, chosen per cfg in VbftRoundMC.tla)
-Do(a) == CASE a.k = "P"  -> Proposal(a.p)
-           [] a.k = "P2" -> Proposal2(a.p)
-           [] a.k = "E"  -> Endorse(a.x, a.p, a.e)
-           [] a.k = "C"  -> Commit(a.x, a.p, a.e, a.sg, a.sf)
-           [] a.k = "BE" -> BadEndorse(a.x, a.p)
-           [] a.k = "BC" -> BadCommit(a.x, a.p)
-
 Next == \E a \in Alpha : Do(a)
 
 Spec == Init /\ [][Next]_vars
 
 Bound == Len(hist) < MaxMsgs
-View  == <<props, es, cm, sigE, sigC>>   \* model checking: pool state and ground truth
-ViewPool == <<props, es, cm>>           \* edge generation: one representative history per pool state
+View  == <<props, es, cm, sigE, sigC, sigD, Len(hist)>>   \* model checking: pool state, ground truth, depth
+ViewPool == <<props, es, cm>>                 \* edge generation: one representative history per pool state
 =============================================================================
